@@ -55,3 +55,8 @@ def generate(rng, tier):
 
 def nontrivial(case):
     return "concatl" in case or "union" in case
+
+
+def shrink(exe, case, impl, model, msg):
+    import vlib
+    return vlib.shrink_history(exe, ENGINE, case, "regex")
